@@ -199,6 +199,9 @@ def part_struct(ctx, res, code_names, replay_tok=None):
                         k = uri_kind(s, False) if isinstance(s, str) else None
                         key = k or f"uri-grammar:{cname}.{f}"
                         what = f"{cname}.parse accepts {f}={s!r}, which is outside the intended URI grammar"
+                    elif reason == "code":
+                        key = f"type-code:{cname}"
+                        what = f"a message with type code {wval.dec(c['tok'])[0]} is accepted as {cname}: not the WAMP protocol's code for that class"
                     elif reason == "id-range":
                         key = f"id-range-unchecked:{cname}.{f}"
                         what = f"{cname}.parse accepts {f}={fields.get(f)!r}: a WAMP id outside [0, 2^53]"
